@@ -457,7 +457,9 @@ def World.onObs1 (w : World) (toks : List String) : World :=
   let w := ients.foldl (fun w e =>
       let w := if !(w.acl.canAppend e) || e.key != e.ident || !e.identOk || !e.sigOk then
         w.fail "C03" "member" s!"peer {p}: e{e.hash} (ident {e.ident}, key {e.key}) is visible but not authored by an authorised writer" else w
-      if e.logId != w.curDb + 1 || !e.hashOk then w.fail "C04" "member" s!"peer {p}: e{e.hash} is visible but tampered or written for another database" else w) w
+      -- (C04's quantifier covers every single-field mutation of a valid entry's wire form, the identity
+      -- fields and the signature included: a mutated form must never be listed)
+      if e.logId != w.curDb + 1 || !e.hashOk || !e.sigOk || !e.identOk then w.fail "C04" "member" s!"peer {p}: e{e.hash} is visible but tampered (content, signature or identity block) or written for another database" else w) w
   let w := if (iv.length != ilen && !isPartial) || !(iv.all (fun h => h != 0)) then w.fail "C04" "shape" s!"peer {p}: Len()={ilen} but {iv.length} entries listed ({arg toks "values"})" else w
   -- C01: same entry set ⇒ same state
   let key := sortNums iv
